@@ -211,9 +211,21 @@ def run_farm(ctx, mode, n=0, corpus=False, defs=None, tag="farm", timeout=3000, 
     return terms, jsons, err
 
 
+def refers_to_sibling(fd):
+    """some trait cell of the file is typed as another enum of the same file (pkg.E<k>): the enums of such a file
+    belong to one invocation and cannot be separated"""
+    import re as _re
+    return any(_re.fullmatch(r"pkg\.E\d+", cl.get("ty", "")) for e in fd["enums"] for c in e["consts"] for cl in (c.get("cells") or []))
+
+
 def single_enum_file(j):
-    """the definition file of case j reduced to the one enum the case is about"""
+    """the definition file of case j reduced to the one enum the case is about (the whole file when its enums
+    refer to each other)"""
     fd = copy.deepcopy(j["file"])
+    if refers_to_sibling(fd):
+        fd["kind"] = "minimise"
+        fd.pop("source", None)
+        return fd
     fd["enums"] = [fd["enums"][j["enum"]]]
     fd["kind"] = "minimise"
     fd.pop("source", None)
@@ -246,6 +258,8 @@ def minimise(ctx, mode, case_type, judge, j, code, keep=None, rounds=4):
     every candidate definition (one constant or one half removed) and keeps the smallest one
     that is still judged with the same code inside Coq"""
     try:
+        if refers_to_sibling(j["file"]):
+            return j   # enums of one invocation that refer to each other: reported as they are
         cur = explicit(single_enum_file(j))
         keep = keep or keep_lowest(cur)
         terms, jsons, err = run_farm(ctx, mode, defs=[cur], tag="min")
